@@ -815,7 +815,27 @@ pub fn seed_sections(ch: &mut Choices, big_out: &mut bool, addr_out: &mut u8) ->
             let d = crate::fullasm::gen_fdwarf(ch, &crate::fullasm::GenOpts { max_units: 3, max_dies: 10, lines: true, bad_refs: 0, split: false });
             *big_out = d.big;
             *addr_out = d.units[0].address_size;
-            crate::fullasm::assemble(&d).sections
+            let asm = crate::fullasm::assemble(&d);
+            let mut sections = asm.sections;
+            // sibling pointers that lie: DW_AT_sibling (the first attribute, a 4-byte unit offset right after the
+            // one-byte abbreviation code) of an entry with children overwritten with an offset inside that same entry,
+            // at its start, just before it, or far away
+            if ch.chance(70) {
+                let cands: Vec<(usize, usize)> = d.units.iter().enumerate().flat_map(|(ui, u)| (0..u.dies.len()).filter(move |i| u.dies[*i].sibling && !u.children(*i).is_empty()).map(move |i| (ui, i))).collect();
+                if !cands.is_empty() {
+                    let t = cands[ch.below(cands.len())];
+                    if let Some((uoff, soff)) = asm.positions.get(&t).copied() {
+                        let v = (uoff as i64 + ch.pick(&[0i64, 1, 2, 3, 4, 5, 6, 8, -1, 0x1000])) as u32;
+                        let bytes = if d.big { v.to_be_bytes() } else { v.to_le_bytes() };
+                        if let Some(info) = sections.get_mut(".debug_info") {
+                            if soff + 5 <= info.len() {
+                                info[soff + 1..soff + 5].copy_from_slice(&bytes);
+                            }
+                        }
+                    }
+                }
+            }
+            sections
         }
         1 => {
             let c = crate::c12::gen_line(ch);
